@@ -2,6 +2,7 @@ package main
 
 import (
 	"errors"
+	"io"
 
 	neatmath "github.com/yaricom/goNEAT/v4/neat/math"
 	"github.com/yaricom/goNEAT/v4/neat/network"
@@ -27,11 +28,52 @@ func init() {
 			return 128000
 		},
 		Run:      runC14,
-		Required: []string{"queries.uncapped", "queries.capped_hit", "queries.capped_not_hit", "nets.dag", "nets.dag_with_links_labelled_recurrent", "nets.cyclic", "nets.self_loop", "sequences.after_cap_hit"},
+		Required: []string{"queries.uncapped", "queries.capped_hit", "queries.capped_not_hit", "nets.dag", "nets.dag_with_links_labelled_recurrent", "nets.cyclic", "nets.self_loop", "nets.long_chain", "queries.print_paths", "sequences.after_cap_hit"},
 	})
 }
 
+// c14LongChain: a chain of more than a thousand hidden neurons (what a very long run of add-node mutations builds): depth is
+// linear to compute and far beyond any small built-in limit
+func c14LongChain(c *Ctx) {
+	r := c.G
+	n := 1030 + r.Intn(120)
+	in := network.NewNNode(1, network.InputNeuron)
+	out := network.NewNNode(2, network.OutputNeuron)
+	all := []*network.NNode{in, out}
+	prev := in
+	for i := 0; i < n; i++ {
+		h := network.NewNNode(3+i, network.HiddenNeuron)
+		h.ConnectFrom(prev, 1.0)
+		all = append(all, h)
+		prev = h
+	}
+	out.ConnectFrom(prev, 1.0)
+	net := network.NewNetwork([]*network.NNode{in}, []*network.NNode{out}, all, 1)
+	want := n + 1
+	c.Count("nets.long_chain", 1)
+	for _, capv := range []int{0, want, want + 5, want - 1} {
+		d, err := net.MaxActivationDepthWithCap(capv)
+		c.Eval(1)
+		detail := map[string]interface{}{"chain_of_hidden_neurons": n, "cap": capv}
+		if capv == 0 || capv >= want {
+			if err != nil || d != want {
+				c.Violate("depth-value", detail, "chain of %d hidden neurons: query with cap %d gives (%d, %v), the longest path has %d links", n, capv, d, err, want)
+				return
+			}
+		} else if !errors.Is(err, network.ErrMaximalNetDepthExceeded) || d != capv {
+			c.Violate("depth-capped", detail, "chain of %d hidden neurons: query with cap %d gives (%d, %v), expected (%d, ErrMaximalNetDepthExceeded)", n, capv, d, err, capv)
+			return
+		}
+	}
+	if d, err := net.MaxActivationDepth(); err != nil || d != want {
+		c.Violate("depth-value", map[string]interface{}{"chain_of_hidden_neurons": n}, "chain of %d hidden neurons: MaxActivationDepth = (%d, %v), expected %d", n, d, err, want)
+	}
+}
+
 func runC14(c *Ctx, idx int) {
+	if idx%64 == 7 {
+		c14LongChain(c)
+	}
 	r := c.G
 	n := 250
 	if c.Tier == "thorough" {
@@ -155,6 +197,17 @@ func runC14(c *Ctx, idx int) {
 				hitBefore = true
 			}
 			if !marksClear(net, "a query with cap "+itoa(capv)) {
+				return
+			}
+		}
+		// printing the activation paths is a query too: it must leave no marks behind either
+		if r.Intn(2) == 0 {
+			if perr := network.PrintAllActivationDepthPaths(net, io.Discard); perr != nil {
+				c.Violate("depth-error", detail(), "PrintAllActivationDepthPaths failed: %v", perr)
+				return
+			}
+			c.Count("queries.print_paths", 1)
+			if !marksClear(net, "PrintAllActivationDepthPaths") {
 				return
 			}
 		}
